@@ -24,6 +24,7 @@ import (
 	"os"
 	"strings"
 	"sync"
+	"sync/atomic"
 	"time"
 
 	"github.com/bokysan/socketace/v2/internal/client/listener"
@@ -98,7 +99,8 @@ func (tc *TargetConn) Received() (n int, sum string, eof bool) {
 
 // Target is a TCP service behind a channel.  mode: "echo" (copy back, close when the peer closes),
 // "sink" (read until EOF, then close), "source:<n>:<seed>" (write n PRNG bytes, then close),
-// "hold" (read and discard, never close by itself).
+// "hold" (read and discard, never close by itself), "flood" (write without end and without reading, close when the
+// peer has gone).
 type Target struct {
 	ln    net.Listener
 	mode  string
@@ -109,6 +111,7 @@ type Target struct {
 	Addr    string
 	Network string
 	slowMs  int
+	Sent    int64 // mode "flood": bytes written so far (atomic)
 }
 
 func payload(seed uint64, n int) []byte {
@@ -200,6 +203,22 @@ func (t *Target) handle(tc *TargetConn) {
 			}
 		}()
 	}
+	if t.mode == "flood" {
+		// writes as fast as the peer takes it, for ever; never reads; closes when the peer has gone
+		chunk := make([]byte, 32768)
+		for {
+			n, err := c.Write(chunk)
+			atomic.AddInt64(&t.Sent, int64(n))
+			if err != nil {
+				break
+			}
+		}
+		_ = c.Close()
+		tc.mu.Lock()
+		tc.closed = true
+		tc.mu.Unlock()
+		return
+	}
 	buf := make([]byte, 65536)
 	if t.mode == "noread" {
 		<-tc.stop
@@ -282,6 +301,59 @@ type Relay struct {
 	First  []int // first client->server byte of every accepted connection (-1 = none seen yet)
 	frozen bool  // while set, relayed bytes are swallowed (the carrier stays open and goes silent)
 	rate   int   // bytes per second in each direction (0 = unlimited): a slow carrier
+	held   map[net.Conn]bool // connections of a stalled carrier: never read again, closed only by Cut/CutServerLegs
+}
+
+// Stall makes the relay stop reading on every connection it has now (both directions) and keep them open: the peer
+// that "does not read and does not hang up".  What is written towards the relay from then on fills the kernel's
+// buffers and then blocks the writer.  Connections accepted later are relayed normally.
+func (r *Relay) Stall() {
+	r.mu.Lock()
+	if r.held == nil {
+		r.held = map[net.Conn]bool{}
+	}
+	for _, c := range r.conns {
+		r.held[c] = true
+	}
+	r.mu.Unlock()
+}
+
+// CutServerLegs closes the relay's connections to the server only; the legs towards the client stay as they are.
+func (r *Relay) CutServerLegs() {
+	r.mu.Lock()
+	var keep, cut []net.Conn
+	for i, c := range r.conns {
+		if i%2 == 1 {
+			cut = append(cut, c)
+			delete(r.held, c)
+		} else {
+			keep = append(keep, c, nil)
+		}
+	}
+	r.conns = keep
+	r.mu.Unlock()
+	for _, c := range cut {
+		_ = c.Close()
+	}
+}
+
+// OwnSockets lists "localport>remoteport" of the connections the relay holds open itself.
+func (r *Relay) OwnSockets() []string {
+	r.mu.Lock()
+	defer r.mu.Unlock()
+	var out []string
+	for _, c := range r.conns {
+		if c != nil {
+			out = append(out, sockKey(c.LocalAddr(), c.RemoteAddr()))
+		}
+	}
+	return out
+}
+
+func (r *Relay) isHeld(c net.Conn) bool {
+	r.mu.Lock()
+	defer r.mu.Unlock()
+	return r.held != nil && r.held[c]
 }
 
 // SetRate makes the carrier slow: at most n bytes per second are forwarded in each direction (in slices of n/20).
@@ -343,9 +415,15 @@ func (r *Relay) pipeIdx(from, to net.Conn, up bool, idx int) {
 				r.down = append(r.down, buf[:n]...)
 			}
 			frozen, rate := r.frozen, r.rate
+			stalled := r.held != nil && (r.held[from] || r.held[to])
 			r.mu.Unlock()
 			if frozen {
 				continue
+			}
+			for stalled {
+				// a stalled carrier: what was read last is never delivered, nothing more is read
+				time.Sleep(10 * time.Millisecond)
+				stalled = r.isHeld(from) || r.isHeld(to)
 			}
 			if rate > 0 {
 				slice := rate / 20
@@ -376,8 +454,13 @@ func (r *Relay) pipeIdx(from, to net.Conn, up bool, idx int) {
 			break
 		}
 	}
-	_ = to.Close()
-	_ = from.Close()
+	// a stalled connection stays open (and unread) until Cut / CutServerLegs
+	if !r.isHeld(to) {
+		_ = to.Close()
+	}
+	if !r.isHeld(from) {
+		_ = from.Close()
+	}
 }
 
 // Inject writes raw bytes towards the server on every relayed connection.
@@ -386,7 +469,7 @@ func (r *Relay) Inject(b []byte) {
 	cs := append([]net.Conn(nil), r.conns...)
 	r.mu.Unlock()
 	for i, c := range cs {
-		if i%2 == 1 { // odd entries are the relay->server legs
+		if i%2 == 1 && c != nil { // odd entries are the relay->server legs
 			_, _ = c.Write(b)
 		}
 	}
@@ -397,9 +480,12 @@ func (r *Relay) Cut() {
 	r.mu.Lock()
 	cs := r.conns
 	r.conns = nil
+	r.held = nil
 	r.mu.Unlock()
 	for _, c := range cs {
-		_ = c.Close()
+		if c != nil {
+			_ = c.Close()
+		}
 	}
 }
 
